@@ -138,6 +138,7 @@ static void send_ack(struct pup_ack *a)
 }
 
 static volatile sig_atomic_t g_term_mode = 0;
+static long g_auto_sleep_ms = 0;
 
 static void on_term(int sig)
 {
@@ -353,6 +354,14 @@ static void do_run(struct pup_cmd *c)
     }
   }
   write_result((int) c->a);
+  if (g_auto_sleep_ms > 0) {
+    // keep the streams open while lingering (flag 16: close them first)
+    if (c->e & 16) {
+      close(1);
+      close(2);
+    }
+    usleep((useconds_t) g_auto_sleep_ms * 1000);
+  }
   _exit((int) c->a);
 }
 
@@ -465,6 +474,26 @@ int main(int argc, char **argv, char **envp)
   memset(&ready, 0, sizeof(ready));
   ready.kind = PUP_READY;
   send_ack(&ready);
+
+  // Autonomous mode for callers that cannot talk to the child between start
+  // and the end (reproc_run): puppet --auto <out> <err> <chunk> <flags> <code> <sleep_ms>
+  if (argc >= 8 && strcmp(argv[1], "--auto") == 0) {
+    struct pup_cmd c;
+    memset(&c, 0, sizeof(c));
+    c.op = PUP_RUN;
+    c.b = strtoull(argv[2], NULL, 10);
+    c.c = strtoull(argv[3], NULL, 10);
+    c.d = strtoull(argv[4], NULL, 10);
+    c.e = strtoull(argv[5], NULL, 10);
+    c.a = (uint32_t) atoi(argv[6]);
+    long sleep_ms = atol(argv[7]);
+    if (sleep_ms > 0) {
+      // flag 8: sleep before producing anything, else after
+      if (c.e & 8) usleep((useconds_t) sleep_ms * 1000);
+      else g_auto_sleep_ms = sleep_ms;
+    }
+    do_run(&c);
+  }
 
   for (;;) {
     struct pup_cmd c;
